@@ -455,7 +455,7 @@ def drive(pid, mod, tier, seed, replay=None, workers=None, limit=None):
             'classes_covered': sorted(classes),
             'excluded_by_calibration': excluded,
             'inconclusive_cases': len(inconclusive),
-            'inconclusive_reasons': sorted(set(r[:200] for r in inconclusive))[:5],
+            'inconclusive_reasons': sorted(set(r[-900:] for r in inconclusive))[:5],
             'known_findings_seen': known_seen,
             'new_violation_mechanisms': {'/'.join(map(str, m)): n
                                          for m, n in seen_mech.items()},
